@@ -1102,6 +1102,9 @@ func (e *Engine) convert(st *State, v Value, from, to types.Type) Value {
 				}
 				return StrVal{b}
 			case *Term: // rune/byte -> string
+				if !isSigned(from) && x.w < 32 {
+					x = mkZext(x, 32) // string(byte(0xc3)) is U+00C3, not a negative rune
+				}
 				return e.runeToStr(st, x)
 			}
 		}
@@ -1349,6 +1352,15 @@ func (e *Engine) callValue(st *State, fr *Frame, fnv Value, args []Value, call *
 	if r, ok := e.redirect[name]; ok {
 		e.stubs[name+" -> "+r.Name()]++
 		target = r
+		if name == "io.Copy" || name == "io.CopyBuffer" {
+			// struct{ io.Writer }{w} / struct{ io.Reader }{r}: a wrapper whose only field is an embedded
+			// interface hides optional methods and otherwise is the wrapped value - the stream models
+			// look through it
+			args = append([]Value(nil), args...)
+			for i := 0; i < 2 && i < len(args); i++ {
+				args[i] = unwrapSingleIface(args[i])
+			}
+		}
 	}
 	if len(target.Blocks) == 0 {
 		panic(unsupported{"call to function without body: " + name})
@@ -1525,4 +1537,31 @@ func zeroOrNil(t types.Type) Value {
 		return nil
 	}
 	return zeroValue(t)
+}
+
+// unwrapSingleIface: for an interface value holding a struct with exactly one field that is an
+// embedded interface, the interface value in that field (repeatedly); anything else unchanged.
+func unwrapSingleIface(v Value) Value {
+	for {
+		iv, ok := v.(IfaceVal)
+		if !ok || iv.t == nil {
+			return v
+		}
+		stt, ok := iv.t.Underlying().(*types.Struct)
+		if !ok || stt.NumFields() != 1 || !stt.Field(0).Embedded() {
+			return v
+		}
+		if _, ok := stt.Field(0).Type().Underlying().(*types.Interface); !ok {
+			return v
+		}
+		sv, ok := iv.v.(StructVal)
+		if !ok || len(sv.f) != 1 {
+			return v
+		}
+		inner, ok := sv.f[0].(IfaceVal)
+		if !ok {
+			return v
+		}
+		v = inner
+	}
 }
